@@ -429,6 +429,14 @@ fn derived_table(
 }
 
 
+#[cfg(rust_dsymbols_verif)]
+fn verif_rows(table: &CosetTable) -> Vec<Vec<isize>> {
+    (0..table.len()).map(|r| table.all_gens().iter()
+        .map(|&g| table.get(r, g).map(|x| x as isize).unwrap_or(-1))
+        .collect()).collect()
+}
+
+
 fn potential_children(
     table: &CosetTable, expanded_rels: &Vec<FreeWord>, max_rows: usize
 )
@@ -439,6 +447,14 @@ fn potential_children(
     if let Some((k, g)) = first_free_in_table(table) {
         let limit = max_rows.min(table.len() + 1);
         for pos in k..limit {
+            #[cfg(rust_dsymbols_verif)]
+            crate::verif::emit(format!(
+                "{{\"ev\":\"derive\",\"gens\":{},\"table\":{:?},\"from\":{},\"to\":{},\"g\":{},\"out\":{}}}",
+                table.nr_gens(), verif_rows(table), k, pos, g,
+                derived_table(table, expanded_rels, k, pos, g)
+                    .map(|t| format!("{:?}", verif_rows(&t)))
+                    .unwrap_or("null".to_string())
+            ));
             if let Some(t) = derived_table(table, expanded_rels, k, pos, g) {
                 result.push(t);
             }
